@@ -1545,7 +1545,13 @@ class Parameter(_ParameterBase):
             try:
                 result = obj._param__private.values[self.name]
             except (AttributeError, KeyError):
-                result = self.default
+                if self.owner is obj:
+                    # instance-level copy of the Parameter: it keeps the
+                    # default it was copied with, attribute access falls
+                    # back to the default of the class Parameter
+                    result = _class_default(obj, self)
+                else:
+                    result = self.default
         return result
 
     @instance_descriptor
